@@ -20,7 +20,9 @@ for p in props:
         except Exception:
             continue
         files = m.get("files") or ["?"]
-        earlier.append("  - %s: %s" % (files[0] if isinstance(files, list) else files, (m.get("title") or "")[:200]))
+        line = "  - %s: %s" % (files[0] if isinstance(files, list) else files, (m.get("title") or "")[:200])
+        if line not in earlier:
+            earlier.append(line)
     a = p["anchors"]
     text = ("PROPERTY %s: %s\n\nStatement: %s\n\nQuantifier (%s): %s\n\nWhy the existing tests cannot settle it: %s\n\nAnchor files: %s\nMechanism: %s\n" %
             (pid, p["title"], p["statement"], ", ".join(p["quantifier"]["over"]), p["quantifier"]["text"], p["why_tests_cant"], ", ".join(a["files"]),
